@@ -513,6 +513,101 @@ theorem smap_step_via_generated [Inhabited Wt] (K : Kernel X Wt β β) (inf eps 
   congr 1
   simp [hlab]
 
+/-- the conditional dict store of `SimpleARTMAP.step_fit` is the model's `mapSet` -/
+theorem mapPut_if_absent (m : List (Option Nat)) (c y : Nat) :
+    (if (mapGet m c).isNone then mapPut m c y else m) = mapSet m c y := by
+  unfold mapSet mapPut mapGet
+  by_cases hc : c < m.length
+  · simp only [hc, if_true]
+    rw [List.getElem?_eq_getElem hc]
+    cases h : m[c] with
+    | none => simp
+    | some v => simp
+  · simp only [hc, if_false]
+    have : m[c]? = none := List.getElem?_eq_none (by omega)
+    simp [this]
+
+/-- the lambda `SimpleARTMAP.step_fit` builds around `match_reset_func`, as translated, is the negated model veto -/
+theorem smap_lambda_eq (m : List (Option Nat)) (y c : Nat) :
+    (if ((mapGet m c).isSome && ((mapGet m c).getD 0 != y)) = true then false else true) = !mapVeto m y c := by
+  unfold mapVeto
+  cases h : mapGet m c with
+  | none => simp
+  | some v => by_cases e : v = y <;> simp [e]
+
+/-- **`SimpleARTMAP.step_fit`, translated statement by statement (lambda, nested call of the generated
+`BaseART.step_fit`, dict bookkeeping), is the model's `smapStep`** on the A-side weights / counters, on the map and
+on the returned label — for every elementary A-side with a scalar vigilance, every state, sample, class, mode, epsilon. -/
+theorem smap_generated_step_fit [Inhabited Wt] (K : Kernel X Wt β β) (inf eps : β) (mt : MT)
+    (self : SMapSelf Wt β) (x : X) (y : Nat) :
+    letI : Inhabited β := ⟨0⟩
+    Art.Gen.SimpleARTMAP.step_fit (scalarExt K inf) self x y mt eps =
+      (let s : SMapState Wt := { a := ⟨self.a.W, self.a.cnt, self.a.n, self.a.labels⟩, map := self.map, labelsB := [] }
+       let s' := smapStep K (scalarCfg mt false (· + eps) (· - eps) inf) self.a.params s (x, y)
+       let c := (stepFit K (scalarCfg mt false (· + eps) (· - eps) inf) self.a.params (mapVeto self.map y) s.a x).2
+       (⟨⟨s'.a.W, s'.a.cnt, s'.a.n, self.a.params, self.a.labels, self.a.hasW⟩, s'.map⟩, c)) := by
+  letI : Inhabited β := ⟨0⟩
+  unfold Art.Gen.SimpleARTMAP.step_fit
+  simp only
+  have hreset : (fun (i : X) (w : Wt) (cluster : Nat) (params : β) (cache : β) =>
+      if ((mapGet self.map cluster).isSome && ((mapGet self.map cluster).getD 0 != y)) = true then false else true) =
+      (fun _ _ c _ _ => !mapVeto self.map y c) := by
+    funext _ _ c _ _; exact smap_lambda_eq self.map y c
+  rw [hreset]
+  have h := scalar_step_fit K inf eps self.a x mt false (mapVeto self.map y) (by intro h; cases h)
+  simp only at h
+  rw [h]
+  simp only [mapPut_if_absent, smapStep]
+
+/-- `SimpleARTMAP.step_pred` = (A-side arg-max, its class); the estimator is returned unchanged -/
+theorem smap_step_pred_spec [Inhabited Wt] (K : Kernel X Wt β β) (inf : β) (self : SMapSelf Wt β) (x : X) :
+    letI : Inhabited β := ⟨0⟩
+    Art.Gen.SimpleARTMAP.step_pred (scalarExt K inf) self x =
+      (self, ((stepPred K self.a.W x).getD 0, (mapGet self.map ((stepPred K self.a.W x).getD 0)).getD 0)) := by
+  letI : Inhabited β := ⟨0⟩
+  unfold Art.Gen.SimpleARTMAP.step_pred
+  simp only
+  rw [step_pred_spec K (scalarExt K inf) self.a x (fun _ => rfl)]
+
+/-- **`SimpleARTMAP.predict` is row-wise `map[arg-max]` and returns the estimator unchanged** (C08 / C09 for the
+translated code) -/
+theorem smap_predict_spec [Inhabited Wt] (K : Kernel X Wt β β) (inf : β) (self : SMapSelf Wt β) (Xs : List X) :
+    letI : Inhabited β := ⟨0⟩
+    Art.Gen.SimpleARTMAP.predict (scalarExt K inf) self Xs =
+      (self, Xs.map (fun x => (mapGet self.map ((stepPred K self.a.W x).getD 0)).getD 0)) := by
+  letI : Inhabited β := ⟨0⟩
+  unfold Art.Gen.SimpleARTMAP.predict
+  simp only
+  let f : X → Nat := fun x => (mapGet self.map ((stepPred K self.a.W x).getD 0)).getD 0
+  let pk : List Nat → Self Wt β × List (Option Nat) × List Nat := fun y => (self.a, self.map, y)
+  have hloop := forEach_next_inv (R := SMapSelf Wt β × List Nat)
+    (I := fun s => ∃ y, s = pk y)
+    (g := fun s (p : X × Nat) => pk (s.2.2.set p.2 (f p.1)))
+    (body := Art.Gen.SimpleARTMAP.predict_loop1_body (scalarExt K inf)) (as := List.zipIdx Xs)
+    (by
+      rintro s ⟨x, i⟩ _ ⟨y, rfl⟩
+      refine ⟨?_, ⟨_, rfl⟩⟩
+      unfold Art.Gen.SimpleARTMAP.predict_loop1_body
+      have hs : ({ a := self.a, map := self.map } : SMapSelf Wt β) = self := rfl
+      simp only [pk, hs, smap_step_pred_spec K inf self x, f])
+    (pk (List.replicate Xs.length 0)) ⟨_, rfl⟩
+  obtain ⟨h1, _⟩ := hloop
+  simp only [pk] at h1
+  rw [h1]
+  have hfold : ∀ (l : List (X × Nat)) (y : List Nat),
+      (l.foldl (fun s (p : X × Nat) => pk (s.2.2.set p.2 (f p.1))) (pk y)) =
+        pk (l.foldl (fun y (p : X × Nat) => y.set p.2 (f p.1)) y) := by
+    intro l
+    induction l with
+    | nil => intro y; rfl
+    | cons a l ih => intro y; simp only [List.foldl_cons]; exact ih _
+  have h2 := hfold (List.zipIdx Xs) (List.replicate Xs.length 0)
+  simp only [pk] at h2
+  rw [h2]
+  have h3 := foldl_set_zipIdx f Xs 0 [] rfl (List.replicate Xs.length 0) (by simp)
+  simp only [List.nil_append] at h3
+  rw [h3]
+
 end SMap
 
 end Art.GenSpec.Control
